@@ -29,8 +29,10 @@ def env_jobs(ctx):
                     vals[lv] = "v%d" % (rank + 1 if order == "inc" else 9 - rank)
             modes = ["stage"] if "stage" in sub else ["direct", "stage"]
             for mode, varpos in [(m, vp) for m in modes for vp in (("last", "first") if "variation" in sub else ("last",))]:
+                # the hooks and the condition are commands of the task too: they see the same layers (all but the variation, which belongs to the commands)
+                hk = 'echo "%sX=${X-UNSET}" >> "$PROJ/out"; echo "%sTN=${TASK_NAME-UNSET}" >> "$PROJ/out"'
                 task = {"command": ['echo "X=${X-UNSET}" >> "$PROJ/out"; echo "P=${PASSTHRU-UNSET}" >> "$PROJ/out"; echo "TN=${TASK_NAME-UNSET}" >> "$PROJ/out"'],
-                        "context": "cx"}
+                        "before": [hk % ("B", "B")], "after": [hk % ("A", "A")], "condition": hk % ("C", "C"), "context": "cx"}
                 files = {}
                 if "task" in vals:
                     task["env"] = {"X": vals["task"]}
@@ -169,7 +171,7 @@ Print BAD.
 def run(ctx):
     res = vlib.Result()
     res.rule = ("environment: every non-empty subset (63) of {parent, context env, env_file, task env, stage env, variation} defining X, with values "
-                "increasing and decreasing with precedence, run directly and as a stage; plus a name only the parent defines and TASK_NAME.  "
+                "increasing and decreasing with precedence, run directly and as a stage, read by the command and (without the variation level) by the condition, a before hook and an after hook; plus a name only the parent defines and TASK_NAME.  "
                 "directory: every subset of {stage dir, task dir (templated), context dir} x invoked from the project root / a sub-directory x "
                 "direct / stage; pwd of command, before, after and condition.  env_file texts: NAME=value lines with values over {a b = # space x :}, repeated names, "
                 "blank lines, lines without '=', names with a leading # or blank, LF / CRLF, unterminated last line.  distinct = distinct case; non-trivial = at least two levels define X "
@@ -226,11 +228,15 @@ def run(ctx):
                 "[(3, %d)%s]" % (I("from-parent"), "; (1, %d)" % I(v["parent"]) if "parent" in v else ""), I("args"),
                 am("ctx") if "ctx" in v else "[(5, 1)]", I("t"), am("envfile") if "envfile" not in v else "[(1, %d); (6, 1)]" % I(v["envfile"]),
                 am("task"), am("stage"), am("variation"))
-            for name, key in ((1, "X"), (3, "P"), (2, "TN")):
+            Lh = "(mkEnvL %s [(4, %d)] %s (2, %d) %s %s %s [])" % (
+                "[(3, %d)%s]" % (I("from-parent"), "; (1, %d)" % I(v["parent"]) if "parent" in v else ""), I("args"),
+                am("ctx") if "ctx" in v else "[(5, 1)]", I("t"), am("envfile") if "envfile" not in v else "[(1, %d); (6, 1)]" % I(v["envfile"]),
+                am("task"), am("stage"))
+            for name, key, LL in ((1, "X", L), (3, "P", L), (2, "TN", L), (1, "CX", Lh), (2, "CTN", Lh), (1, "BX", Lh), (2, "BTN", Lh), (1, "AX", Lh), (2, "ATN", Lh)):
                 val = lines.get(key)
                 k = len(items)
                 index[k] = (j, key)
-                items.append("(%d%%N, env_ok %s %d %s)" % (k, L, name, "None" if val in (None, "UNSET") else "(Some %d)" % I(val)))
+                items.append("(%d%%N, env_ok %s %d %s)" % (k, LL, name, "None" if val in (None, "UNSET") else "(Some %d)" % I(val)))
             if len(v) >= 2:
                 res.nontrivial_keys.add(json.dumps([v, j["mode"]], sort_keys=True))
         else:
